@@ -415,7 +415,7 @@ class Extractor:
 
     def fork(self, cond, test, st, m):
         """-> [(branch taken: bool, state)]"""
-        t = self.doc_truth(cond) if not (isinstance(cond, tuple) and cond and cond[0] == 'cond') else None
+        t = self.doc_truth(cond) if not (isinstance(cond, tuple) and cond and cond[0] in ('cond', 'condnot')) else None
         if t is not None:
             return [(t, st)]
         t = st.copy()
@@ -512,7 +512,8 @@ class Extractor:
                         out.append((s3, ('cond', norm(e), e.ops[0], l, r)))
             return out
         if isinstance(e, ast.UnaryOp) and isinstance(e.op, ast.Not):
-            return [(s2, (not v) if isinstance(v, bool) else ('cond', norm(e))) for s2, v in self.ev(e.operand, st, m)]
+            return [(s2, (not v) if isinstance(v, bool) else ('condnot', v) if isinstance(v, (tuple, SObj, Doc)) else ('cond', norm(e)))
+                    for s2, v in self.ev(e.operand, st, m)]
         if isinstance(e, (ast.List, ast.Tuple)):
             states = [(st, [])]
             for x in e.elts:
@@ -536,7 +537,7 @@ class Extractor:
                     out.extend(self.ev(e.body if br else e.orelse, s3, m))
             return out
         if isinstance(e, ast.Subscript):
-            return [(s2, ('sym', norm(e))) for s2, _ in self.ev(e.value, st, m)]
+            return [(s2, ('sym', norm(e), e)) for s2, _ in self.ev(e.value, st, m)]
         raise AnalysisError('templates: unsupported expression %s in %s line %d' % (type(e).__name__, m.qname, getattr(e, 'lineno', 0)))
 
     def binop(self, e, l, r, m):
@@ -562,7 +563,7 @@ class Extractor:
                 if r.field is None:
                     return ('rep', l.t, r.off)
                 if l.t == ' ':
-                    return IndentDoc(r.off, 1) if r.field == 'indentation' else ('sym', norm(e))
+                    return IndentDoc(r.off, 1) if r.field == 'indentation' else ('sym', norm(e), e)
             if isinstance(l, tuple) and l[0] == 'rep' and isinstance(r, SInt):
                 if r.field is None:
                     return ('rep', l[1], l[2] * r.off)
@@ -615,6 +616,8 @@ class Extractor:
             return Lit(str(v))
         if isinstance(v, tuple) and v[0] == 'sym' and node is not None:
             return Hole(node, m)
+        if isinstance(v, tuple) and v[0] == 'sym' and len(v) > 2 and isinstance(v[2], ast.AST):
+            return Hole(v[2], m)
         if node is not None:
             return Hole(node, m)
         raise AnalysisError('templates: cannot turn %r into text in %s' % (v, m.qname))
@@ -689,6 +692,23 @@ class Extractor:
                 return [(st, Repr(e.args[0], m))]
             if name == 'str':
                 return [(st, ('str', self.as_doc(args[0], m, e.args[0])))] if not isinstance(args[0], SInt) else [(st, self.as_doc(args[0], m, e.args[0]))]
+            if name == 'isinstance' and len(args) == 2:
+                names = [x.id for x in ast.walk(e.args[1]) if isinstance(x, ast.Name)]
+                a = args[0]
+                if isinstance(a, bool):
+                    return [(st, any(n in ('bool', 'int') for n in names))]
+                if a is None:
+                    return [(st, False)]
+                if isinstance(a, Lit):
+                    return [(st, 'str' in names)]
+                if isinstance(a, SInt) and a.field is None:
+                    return [(st, 'int' in names)]
+                if isinstance(a, PyList):
+                    return [(st, 'list' in names)]
+                if isinstance(a, tuple) and a and a[0] == 'new':
+                    return [(st, any(k.name in names for k in self.repo.mro(a[1])))]
+                if isinstance(a, SObj):
+                    return [(st, ('cond', norm(e), 'isinstance', a, names))]
             if name == 'len':
                 if args and isinstance(args[0], SObj):
                     # the argument seen from the template's own parameters (the call may sit in a helper)
@@ -697,11 +717,11 @@ class Extractor:
                     return [(st, ('len', e2))]
                 return [(st, ('len', e))]
             if name == 'int':
-                return [(st, ('sym', norm(e)))]
+                return [(st, ('sym', norm(e), e))]
             r = self.repo.resolve_name(m, name)
             if r and r[0] == 'class':
                 return [(st, ('new', r[1], args))]
-            return [(st, ('sym', norm(e)))]
+            return [(st, ('sym', norm(e), e))]
         if isinstance(fn, ast.Attribute):
             outs = []
             for s2, recv in self.ev(fn.value, st, m):
@@ -731,7 +751,7 @@ class Extractor:
             if isinstance(a, SObj):
                 return [(st, Lines(recv.t, [MapSub(a.expr, m, '_x', Hole(ast.Name(id='_x', ctx=ast.Load()), m), 0, 0)]))]
             # a join over something the extractor does not model: an opaque string, classified by the flow analysis
-            return [(st, ('sym', norm(e)))]
+            return [(st, ('sym', norm(e), e))]
         if isinstance(recv, PyList) and name in ('append', 'extend', 'insert'):
             if name == 'append':
                 recv.items.append(args[0])
@@ -754,7 +774,7 @@ class Extractor:
             loop = st.fields.get('loop_level', SInt('loop_level', 0)).off
             return [(st, Sub(recv.expr, m, ind, loop))]
         if isinstance(recv, SObj) or (isinstance(recv, tuple) and recv and recv[0] in ('sym', 'str', 'global', 'attr')):
-            return [(st, ('sym', norm(e)))]
+            return [(st, ('sym', norm(e), e))]
         raise AnalysisError('templates: unsupported method call %s in %s' % (norm(e), m.qname))
 
 
@@ -864,6 +884,24 @@ class TemplateSet:
             raise RenderError('attribute %s of %r' % (expr.attr, b))
         if isinstance(expr, ast.Call) and is_name(expr.func, 'len'):
             return len(self._val(expr.args[0], env))
+        if isinstance(expr, ast.Call) and norm(expr.func) in ('json.dumps', 'repr', 'str', 'int', 'ascii') and len(expr.args) == 1 and not expr.keywords:
+            import json
+            fn = {'json.dumps': json.dumps, 'repr': repr, 'str': str, 'int': int, 'ascii': ascii}[norm(expr.func)]
+            try:
+                return fn(self._val(expr.args[0], env))
+            except (TypeError, ValueError) as e:
+                raise RenderError('%s fails on the sample value: %s' % (norm(expr.func), e))
+        if isinstance(expr, ast.Call) and is_name(expr.func, 'isinstance') and len(expr.args) == 2:
+            v = self._val(expr.args[0], env)
+            names = [x.id for x in ast.walk(expr.args[1]) if isinstance(x, ast.Name)]
+            py = {'str': str, 'int': int, 'bool': bool, 'list': list, 'tuple': tuple, 'dict': dict, 'float': float}
+            if isinstance(v, Node):
+                mro = set()
+                for c in self.repo.all_classes():
+                    if c.name == v.cls:
+                        mro = {k.name for k in self.repo.mro(c)}
+                return any(n in mro for n in names)
+            return any(n in py and isinstance(v, py[n]) for n in names)
         if isinstance(expr, ast.Constant):
             return expr.value
         if isinstance(expr, ast.List) and not expr.elts:
@@ -891,6 +929,9 @@ class TemplateSet:
 
     def _guard_ok(self, g, env, ind, loop):
         v = g.value
+        if isinstance(v, tuple) and v and v[0] == 'condnot':
+            inner = Guard(g.test.operand if isinstance(g.test, ast.UnaryOp) else g.test, not g.polarity, v[1])
+            return self._guard_ok(inner, env, ind, loop)
         if isinstance(v, tuple) and v and v[0] == 'pred':
             args = []
             for a in v[2]:
@@ -908,6 +949,19 @@ class TemplateSet:
         elif isinstance(v, tuple) and v and v[0] == 'cond' and len(v) == 5 and \
                 self._state_val(v[3], ind, loop) is not None and self._state_val(v[4], ind, loop) is not None:
             t = _cmp(v[2], self._state_val(v[3], ind, loop), self._state_val(v[4], ind, loop))
+        elif isinstance(v, tuple) and v and v[0] == 'cond' and len(v) == 5 and v[2] == 'isinstance':
+            x = self._sym_val(v[3], env, ind, loop)
+            if x is _UNKNOWN:
+                raise RenderError('cannot evaluate %s on a sample tree' % v[1])
+            py = {'str': str, 'int': int, 'bool': bool, 'list': list, 'tuple': tuple, 'dict': dict, 'float': float}
+            if isinstance(x, Node):
+                mro = set()
+                for c in self.repo.all_classes():
+                    if c.name == x.cls:
+                        mro = {k.name for k in self.repo.mro(c)}
+                t = any(n in mro for n in v[4])
+            else:
+                t = any(n in py and isinstance(x, py[n]) for n in v[4])
         elif isinstance(v, tuple) and v and v[0] == 'cond' and len(v) == 5 and isinstance(v[2], (ast.Eq, ast.NotEq, ast.Is, ast.IsNot)) and \
                 self._sym_val(v[3], env, ind, loop) is not _UNKNOWN and self._sym_val(v[4], env, ind, loop) is not _UNKNOWN:
             # operands seen from the template's own parameters (the comparison may sit in a helper)
